@@ -32,9 +32,9 @@ def frame(begin, fields):
     return whole + b'10=' + ('%03d' % (sum(whole) % 256)).encode() + SOH
 
 
-def msg(begin, mtype, seq, sender, target, now_ms, body=(), possdup=False, orig_ms=None, extra_header=(), drop=()):
-    """standard header order: 35 49 56 34 [43 97 122] 52 + extra header fields, then body"""
-    f = [(35, mtype), (49, sender), (56, target), (34, seq)]
+def msg(begin, mtype, seq, sender, target, now_ms, body=(), possdup=False, orig_ms=None, extra_header=(), drop=(), pre=()):
+    """standard header order: 35 49 56 [pre] 34 [43 97 122] 52 + extra header fields, then body"""
+    f = [(35, mtype), (49, sender), (56, target)] + list(pre) + [(34, seq)]
     if possdup:
         f.append((43, 'Y'))
     f.append((52, ts(now_ms)))
